@@ -9,8 +9,8 @@
 //@typemap /<'a, R: RngCore>/ => <'a>
 //@typemap /&mut R\b/ => &mut Rng
 //@enum file=poly-commit/src/error.rs name=Error
-//@use pcenv
-//@spec batch_spec
+//@use pctypes pcenv
+//@spec group_spec batch_spec
 pub struct PC;
 impl PC {
     // Self::check of the scheme
